@@ -35,6 +35,32 @@ def controls(ctx, prop):
                             "alarm on a benign one): " + "; ".join(f"{n}: {m[:160]}" for n, m in missed))
 
 
+def run_steps(mod, ctx):
+    """Execute the property module's run() statement by statement. A rule family that meets an idiom it does not
+    understand (AnalysisError) is recorded and the remaining families still run, so that a violation another rule can see
+    is reported (exit 1) instead of being hidden behind exit 2. Steps that only fail because an earlier step produced no
+    result are recorded as skipped."""
+    import ast
+    import inspect
+    import textwrap
+    src = textwrap.dedent(inspect.getsource(mod.run))
+    fn = ast.parse(src).body[0]
+    ns = dict(vars(mod))
+    ns[fn.args.args[0].arg] = ctx
+    errors = []
+    for st in fn.body:
+        code = compile(ast.Module(body=[st], type_ignores=[]), getattr(mod, "__file__", "<prop>"), "exec")
+        try:
+            exec(code, ns)
+        except AnalysisError as e:
+            errors.append(str(e))
+        except (NameError, TypeError, AttributeError, KeyError) as e:
+            if not errors:
+                raise
+            errors.append(f"step skipped, it depends on an undecided one ({type(e).__name__}: {e})")
+    return errors
+
+
 def main(argv=None):
     ap = argparse.ArgumentParser()
     ap.add_argument("prop")
@@ -50,10 +76,23 @@ def main(argv=None):
             from . import interp
             interp.PRECISE_DEFAULT = True       # full path sensitivity (no fact-merging) wherever the state cap allows
             ctx.note("thorough tier: unmerged (fully path-sensitive) analysis; the property's mutation controls are replayed")
-        mod.run(ctx)
-        if a.tier == "thorough" and not ctx.findings_unknown():
+        errors = run_steps(mod, ctx)
+        if a.tier == "thorough" and not ctx.findings_unknown() and not errors:
             controls(ctx, prop)
-        code = ctx.finish()
+        for e in errors:
+            ctx.note("analysis error (that rule family is undecided on this tree): " + e)
+        try:
+            code = ctx.finish()
+        except AnalysisError as e:
+            errors.append(str(e))
+            code = 0
+        if code == 0 and errors:
+            # nothing this run could decide is violated, but part of the property went undecided: never a silent pass
+            print(f"ANALYSIS-ERROR property={prop}: " + " || ".join(errors))
+            return 2
+        if code == 1 and errors:
+            print(f"note: {len(errors)} rule famil{'y' if len(errors) == 1 else 'ies'} could not be decided on this tree: "
+                  + " || ".join(x[:160] for x in errors))
     except AnalysisError as e:
         print(f"ANALYSIS-ERROR property={prop}: {e}")
         return 2
